@@ -303,8 +303,9 @@ Proof.
       rewrite vars_ctx_of_env. f_equal. exact (XS.bind_ids _ _ _ BD). }
     destruct IHn as [Fin NZn]. split; [apply (X' NZn); exact Fin|].
     destruct (cs_invoke _ _ _ _ _ _ _ _ _ _ CS) as (tmpv' & d' & _ & _ & _ & CD).
-    destruct (Nat.leb (List.length (txtors d')) 1); [subst code; apply nz1; cbn; lia|]. destruct CD as (k' & _ & ->).
-    cbn [b_mark b_add_and_jump rv_backend app]. unfold r_add_and_jump. destruct (addi_fits _); apply nz1; [cbn; lia|apply isize_LI].
+    destruct (Nat.leb (List.length (txtors d')) 1); [subst code; apply nz1; cbn; lia|destruct CD as (k' & _ & ->)].
+    cbv [b_mark b_add_and_jump rv_backend r_add_and_jump]. cbn [app].
+    destruct (addi_fits _); cbn [app]; apply nz1; [cbn; lia|apply isize_LI].
   - (* Literal *)
     cbn [stmt_k] in FR.
     cbn [lin_check] in LC. apply andb_true_iff in LC as [_ LC]. cbn [ann_check] in AN.
